@@ -7,9 +7,15 @@
    (per branch: [inc] = commits incorporated, [last] = commit analysed last; Live / Hibernated / Disposed);
    Graph.v [Anc g a c] = a is c or an ancestor of c, [nonredundant g c q] = q is a parent of c and not an
    ancestor of another parent, [retained g A] = A is a whole connected component of g of maximal size;
-   Spec.v [replay_ok], [lasts_ok], [replay_block], [merge_ok], restated here clause by clause. *)
+   Spec.v [replay_ok], [lasts_ok], [replay_block], [merge_ok], restated here clause by clause.
+
+   Second stream (execution): ./check C02 also runs the real Pipeline.Run with a stateful recording item on
+   synthetic repositories and judges the log of its Consume calls with the extracted [exec_ok]
+   (ExecCheck.v: one [consume_record] per Consume = the commit, what the instance had seen before, the
+   commit it consumed last); the theorems C02_exec_* below say what an accepted log satisfies. *)
 From Coq Require Import List ZArith Permutation.
 From Herc Require Import Plan.Syntax Plan.Exec Plan.Graph Plan.Checker Plan.Spec Plan.CheckerSound.
+From Herc Require Import Plan.ExecCheck Plan.ExecCheckSound.
 Import ListNotations.
 Local Open Scope nat_scope.
 
@@ -100,4 +106,95 @@ Proof. vm_compute. reflexivity. Qed.
 (* a plan that analyses the smaller component and drops the larger one is rejected: [retained] *)
 Example C02_rejects_smaller_component :
   plan_ok [[]; []; [1]] [emerge 1 (Some 0); commit_on 0 1] = false.
+Proof. vm_compute. reflexivity. Qed.
+
+(* ====================== execution stream: the log of the real Pipeline.Run ====================== *)
+
+(* An accepted Consume log satisfies the property, for every commit graph and every log: the consumed
+   commits are exactly the retained component; every Consume happens on an instance that had seen exactly
+   Anc(q) for one parent q, q last, or on a fresh instance for a commit without parents; every commit is
+   consumed once per non-redundant parent. *)
+Theorem C02_exec_checker_sound : forall (g : list (list nat)) (log : list consume_record),
+  exec_ok g log = true -> exec_spec g log.
+Proof. exact exec_ok_sound. Qed.
+Print Assumptions C02_exec_checker_sound.
+
+Theorem C02_exec_checker_sound_spelled_out : forall (g : list (list nat)) (log : list consume_record),
+  exec_ok g log = true ->
+  (* every commit of the retained connected component is consumed (and nothing else) *)
+  retained g (map rc_commit log) /\
+  (* whenever a commit is consumed, the consuming instance has seen exactly the ancestors (or self) of one
+     parent of the commit, that parent last; a commit without parents is consumed by a fresh instance *)
+  (forall r, In r log ->
+     rc_commit r < length g /\
+     match rc_last r with
+     | None => rc_seen r = [] /\ parents g (rc_commit r) = []
+     | Some q => In q (parents g (rc_commit r)) /\ forall a, In a (rc_seen r) <-> Anc g a q
+     end) /\
+  (* a commit is consumed once per non-redundant parent (a root: once) *)
+  (forall c, In c (map rc_commit log) ->
+     let ls := map rc_last (filter (fun r => rc_commit r =? c) log) in
+     (parents g c = [] /\ ls = [None]) \/
+     (parents g c <> [] /\
+      exists qs, ls = map Some qs /\ NoDup qs /\
+                 forall q, In q qs <-> (In q (parents g c) /\
+                                        ~ exists q', In q' (parents g c) /\ q' <> q /\ Anc g q q'))).
+Proof. exact exec_ok_sound_spelled_out. Qed.
+Print Assumptions C02_exec_checker_sound_spelled_out.
+
+(* the merged state covers the full ancestry: a child consumed after its parent q sees all of Anc(q) *)
+Theorem C02_exec_full_ancestry : forall g log r q,
+  exec_ok g log = true -> In r log -> rc_last r = Some q ->
+  In q (parents g (rc_commit r)) /\
+  (forall a, Anc g a q -> In a (rc_seen r)) /\ (forall a, In a (rc_seen r) -> Anc g a q).
+Proof. exact exec_ok_full_ancestry. Qed.
+Print Assumptions C02_exec_full_ancestry.
+
+(* a commit without analysed parents starts a fresh branch *)
+Theorem C02_exec_root_fresh : forall g log r,
+  exec_ok g log = true -> In r log -> parents g (rc_commit r) = [] -> rc_seen r = [] /\ rc_last r = None.
+Proof. exact exec_ok_root_fresh. Qed.
+Print Assumptions C02_exec_root_fresh.
+
+(* non-vacuity.  Three roots merged one after the other (the history of seeded/C02-s2):
+   0-1, 2-3, 4-5, 6 = merge(1,3), 7 = merge(6,5), 8 = child of 7 *)
+Definition three_roots : list (list nat) := [[]; [0]; []; [2]; []; [4]; [1; 3]; [6; 5]; [7]].
+
+(* the log of the unchanged Pipeline.Run is accepted ... *)
+Example C02_exec_accepts_three_roots :
+  exec_ok three_roots
+    [mkR 0 [] None; mkR 1 [0] (Some 0); mkR 2 [] None; mkR 3 [2] (Some 2); mkR 4 [] None; mkR 5 [4] (Some 4);
+     mkR 6 [0; 1] (Some 1); mkR 6 [2; 3] (Some 3);
+     mkR 7 [0; 1; 2; 3; 6] (Some 6); mkR 7 [4; 5] (Some 5);
+     mkR 8 [0; 1; 2; 3; 4; 5; 6; 7] (Some 7)] = true.
+Proof. vm_compute. reflexivity. Qed.
+
+Example C02_exec_spec_satisfiable : exists log, exec_spec three_roots log /\ length log = 11.
+Proof. eexists. split; [apply exec_ok_sound; exact C02_exec_accepts_three_roots | reflexivity]. Qed.
+
+(* ... the log observed with the third root branch sharing the items of the second one is rejected
+   (root 4 consumed on a branch that had seen {2,3}) ... *)
+Example C02_exec_rejects_shared_root_branch :
+  exec_ok three_roots
+    [mkR 0 [] None; mkR 1 [0] (Some 0); mkR 2 [] None; mkR 3 [2] (Some 2); mkR 4 [2; 3] (Some 3);
+     mkR 5 [2; 3; 4] (Some 4); mkR 6 [0; 1] (Some 1); mkR 6 [2; 3; 4; 5] (Some 5);
+     mkR 7 [0; 1; 2; 3; 4; 5; 6] (Some 6); mkR 7 [0; 1; 2; 3; 4; 5; 6] (Some 6);
+     mkR 8 [0; 1; 2; 3; 4; 5; 6; 7] (Some 7)] = false.
+Proof. vm_compute. reflexivity. Qed.
+
+(* ... so are a dropped merge (the child 3 of the merge commit 2 sees one side only), a replay on a
+   redundant parent (graph 0 <- 1 <- 2 with the fast-forward edge 2 -> 0) and a run that consumed the
+   smaller component *)
+Example C02_exec_rejects_dropped_merge :
+  exec_ok [[]; []; [0; 1]; [2]]
+    [mkR 0 [] None; mkR 1 [] None; mkR 2 [0] (Some 0); mkR 2 [1] (Some 1); mkR 3 [0; 2] (Some 2)] = false.
+Proof. vm_compute. reflexivity. Qed.
+
+Example C02_exec_rejects_replay_on_redundant_parent :
+  exec_ok [[]; [0]; [1; 0]]
+    [mkR 0 [] None; mkR 1 [0] (Some 0); mkR 2 [0; 1] (Some 1); mkR 2 [0] (Some 0)] = false.
+Proof. vm_compute. reflexivity. Qed.
+
+Example C02_exec_rejects_smaller_component :
+  exec_ok [[]; []; [1]] [mkR 0 [] None] = false.
 Proof. vm_compute. reflexivity. Qed.
